@@ -284,6 +284,9 @@ impl PathSliceList {
                 PathSlice::CombineObj(v) => {
                     let mut s = String::new();
                     let mut prepend = String::new();
+                    // (the tree of a spread operand is needed twice: it is handed over as an argument
+                    // and written once, otherwise nested spreads double the code with every level)
+                    let mut spread_args: Vec<String> = vec![];
                     let mut need_object_assign = false;
                     let mut next_need_comma_sep = false;
                     for (key, sub_pas_str, sub_p) in v.iter() {
@@ -309,13 +312,20 @@ impl PathSliceList {
                                     next_need_comma_sep = true;
                                 }
                                 None => {
-                                    write!(prepend, "({})===true||", sub_s)?;
-                                    write!(s, "}},X({}),{{", sub_s)?;
+                                    let arg = format!("s{}", spread_args.len());
+                                    write!(prepend, "{}===true||", arg)?;
+                                    write!(s, "}},X({}),{{", arg)?;
+                                    spread_args.push(sub_s);
                                     need_object_assign = true;
                                     next_need_comma_sep = false;
                                 }
                             }
                         }
+                    }
+                    if need_object_assign {
+                        let params: Vec<String> =
+                            (0..spread_args.len()).map(|i| format!("s{}", i)).collect();
+                        write!(ret, "(({})=>", params.join(","))?;
                     }
                     if is_template_data {
                         if need_object_assign {
@@ -329,6 +339,9 @@ impl PathSliceList {
                         } else {
                             write!(ret, "{}Q.b({{{}}})", prepend, s)?;
                         }
+                    }
+                    if need_object_assign {
+                        write!(ret, ")({})", spread_args.join(","))?;
                     }
                 }
                 PathSlice::CombineArr(v, spread) => {
